@@ -34,7 +34,7 @@ CONSTANTS NCalls = {n}
  VarTrees <- ConcTrees
  HeaderModes <- AllHdr
  Reuse <- Bools
- OpNames <- AllOpNames
+ OpNames <- {opn}
  Deviations <- {dev}
 INVARIANT NoInterference
 INVARIANT OwnResponse
@@ -66,11 +66,15 @@ def run(tier, work, replay=None):
     v = Verdict("C11", tier)
     q = tier == "quick"
     out = work.dir / "cases.json"
-    res = run_tlc("Requests_MC", MC_CFG.format(n=2 if q else 3, dev="NoDev"), work.sub("tlc"), env={"OUT_FILE": str(out), "TREESET": "small" if q else "full"},
+    res = run_tlc("Requests_MC", MC_CFG.format(n=2 if q else 3, dev="NoDev", opn="AllOpNames" if q else "NamedOnly"), work.sub("tlc"), env={"OUT_FILE": str(out), "TREESET": "small" if q else "full"},
                   timeout=3000, coverage=q)
     tlc_must_pass(res, "Requests_MC")
+    if not q:       # thorough: three interleaved calls with the name given + two calls over every way of (not) naming the operation
+        res_b = run_tlc("Requests_MC", MC_CFG.format(n=2, dev="NoDev", opn="AllOpNames"), work.sub("tlc_b"), env={"OUT_FILE": "", "TREESET": "small"}, timeout=3000)
+        tlc_must_pass(res_b, "Requests_MC (operation-name modes)")
+        v.add_tlc(res_b, "Requests: 2 calls x operation-name modes")
     # anti-vacuity: writing nulls into the walked containers (seeded change C11b) violates the spec's invariants
-    dev = run_tlc("Requests_MC", MC_CFG.format(n=2, dev="InPlace"), work.sub("tlc_dev"), env={"OUT_FILE": "", "TREESET": "small"}, timeout=3000)
+    dev = run_tlc("Requests_MC", MC_CFG.format(n=2, dev="InPlace", opn="NamedOnly"), work.sub("tlc_dev"), env={"OUT_FILE": "", "TREESET": "small"}, timeout=3000)
     if not ({"CallerVarsUntouched", "NoInterference"} & set(dev.invariant_violated)):
         raise Machinery("anti-vacuity: in_place_nulling does not violate CallerVarsUntouched / NoInterference")
     v.add_tlc(res, f"Requests: interleavings of {2 if q else 3} calls + MultipartSpec over all trees")
